@@ -194,6 +194,27 @@ func (r *trH) collect(c int) {
 	}
 }
 
+// drainTrusted discards what the trusted connection queued that is not a transaction request (header polls of the catch-up).
+func (r *trH) drainTrusted() {
+	ch := r.h.n.outgoing.Channel
+	var keep []wire.Message
+	for len(ch) > 0 {
+		m := <-ch
+		if gd, ok := m.(*wire.MsgGetData); ok {
+			tx := false
+			for _, iv := range gd.InvList {
+				tx = tx || iv.Type == wire.InvTypeTx
+			}
+			if tx {
+				keep = append(keep, m)
+			}
+		}
+	}
+	for _, m := range keep {
+		ch <- m
+	}
+}
+
 func (r *trH) step(a trAct) (res string) {
 	defer func() {
 		if e := recover(); e != nil {
@@ -240,6 +261,29 @@ func (r *trH) step(a trAct) (res string) {
 		if err := r.confirmInBlock(a.T); err != nil {
 			return "ProcessBlock: " + err.Error()
 		}
+		r.forgot[a.T-1] = append(r.forgot[a.T-1], r.clock)
+	case "ConfirmOos":
+		// a header of the trusted peer that does not connect puts the node out of sync (handlers/headers.go: unknown header);
+		// the block that contains the transaction is then announced, delivered and processed; processing it ends the catch-up
+		unk := wire.NewMsgHeaders()
+		up := bitcoin.Hash32{0xEE, 0xE1, byte(r.nblk)}
+		uh := wire.NewBlockHeader(1, &up, &bitcoin.Hash32{}, 0, uint32(7000+r.nblk))
+		unk.AddBlockHeader(uh)
+		n.handleMessage(ctx, unk)
+		if n.state.IsReady() {
+			return "the node stayed in sync"
+		}
+		if err := r.confirmInBlock(a.T); err != nil {
+			return "ProcessBlock: " + err.Error()
+		}
+		if !n.state.IsReady() {
+			n.handleMessage(ctx, wire.NewMsgHeaders()) // the peer has nothing more: in sync again
+			n.check(ctx)
+		}
+		if !n.state.IsReady() {
+			return "the node did not get in sync again"
+		}
+		r.drainTrusted()
 		r.forgot[a.T-1] = append(r.forgot[a.T-1], r.clock)
 	case "Tick":
 		n.memPool.VerifShiftClocks(trTick)
